@@ -22,7 +22,7 @@
 //! Deviations from DESIGN.md: no libFuzzer target (thorough is the proptest runner only); thorough
 //! explores ~1.5·10^6 cases ≈ 8·10^8 pairs instead of 2·10^9.
 //!
-//! Sensitivity probes (mkpatch + mutrun, `./check C11 quick`; all three detected within 2 cases):
+//! Sensitivity probes (patches kept in harness/crates/vf-plow/probes/; mkpatch + mutrun, `./check C11 quick`; all three detected within 2 cases):
 //!  1. reciprocal without the `+ 1` (`u128::MAX / u128::from(divisor)`)   -> VIOLATION (d=3, h=u64::MAX gives 3)
 //!  2. carry from the low half only (`(low_product >> 64) >> 64`)          -> VIOLATION (d=3, h=u64::MAX)
 //!  3. `PowerOfTwo { mask: divisor }`                                       -> VIOLATION (d=1, h=u64::MAX gives 1)
